@@ -30,6 +30,7 @@ def run(ctx):
     ctx.rule('C11.b-decoder-inputs', 'decoders read of the work object only decode_begin()\'s (store, counts, bitmap) and call only undo_last_chunk_encoding / DecoderResult::new on it')
     ctx.rule('C12.a-accessor-atoms', 'accessor returns Some exactly under the documented condition (given originals are never reported)')
     ctx.rule('C12.a-forwarding', 'public result methods forward to the work accessors')
+    ctx.rule('C11.e-placement-agreement', 'the work positions each decoder treats as originals / recovery shards are the base positions it configured at reset (where add_* stores them and the accessor reads them)')
     ctx.rule('C11.d-all-present-shortcut', 'decode_begin yields None exactly when all originals were received and decode then returns the untouched result')
     for cfg in cfgs:
         facts = ctx.facts(cfg)
@@ -37,6 +38,7 @@ def run(ctx):
         ctx.guard('C11.analysable', decoder_inputs, ctx, facts, cfg)
         ctx.guard('C11.analysable', c12.accessors, ctx, facts, cfg)
         ctx.guard('C11.analysable', shortcut, ctx, facts, cfg)
+        ctx.guard('C11.analysable', placement, ctx, facts, cfg)
 
 
 def add_effects(ctx, facts, cfg):
@@ -239,3 +241,97 @@ def shortcut(ctx, facts, cfg):
                 ctx.ok(R, '%s:untouched-result@%s' % (p, cfg), None)
             else:
                 ctx.violation(R, 'no-let-else', '%s has no `let Some(..) = decode_begin()? else { return result }` shortcut (unrecognised idiom)' % p, site=fn.span, fn=p, cfg=cfg)
+
+
+def placement(ctx, facts, cfg):
+    """decode() hard-codes a layout (loops over `received[i]`); reset configured one (base positions).  They must agree."""
+    R = 'C11.e-placement-agreement'
+    RL = roles_mod.roles(facts)
+    full = RL.fn.get('dec.reset')
+    if full is None:
+        ctx.violation(R, 'role-missing:dec.reset', 'unrecognised idiom: explicit reset of DecoderWork not identified', cfg=cfg)
+        return
+    n = 0
+    for p, fn in sorted(facts.fns.items()):
+        if not (fn.impl_trait == 'rate::RateDecoder' and fn.name == 'decode' and not (fn.impl_self_adt or '').startswith('rate::rate_default')):
+            continue
+        adt = fn.impl_self_adt
+        # configured bases: arguments 4,5 of the explicit reset in a helper of the same type
+        bases = None
+        for q, g in facts.fns.items():
+            if g.impl_self_adt != adt:
+                continue
+            for b, t in g.body.calls():
+                if t['callee'].get('path') == full and len(t['args']) >= 6:
+                    pn = g.param_names()
+                    usz = [x for i, x in enumerate(pn) if g.body.local_ty(i + 1) == 'usize']
+                    ren = {usz[0]: 'O', usz[1]: 'R'} if len(usz) >= 2 else {}
+                    bases = (rn(core.strip_var_ids(g.body.canon_op(t['args'][4])), ren), rn(core.strip_var_ids(g.body.canon_op(t['args'][5])), ren))
+        if bases is None:
+            ctx.violation(R, 'no-config:%s' % core.short(adt), 'cannot find where %s configures the base positions of its work object' % adt, fn=p, cfg=cfg)
+            continue
+        # decode: names of the counts come from the begin() tuple pattern: (work, original_count, recovery_count, received)
+        lets = core.hir_find(fn.hir['value'], lambda m: m.get('k') == 'let' and 'else' in m)
+        names = None
+        for (m, _) in lets:
+            pats = core.hir_find(m['pat'], lambda x: x.get('k') == 'tuple')
+            for (tp, _) in pats:
+                binds = [x.get('name') for x in tp['pats'] if x.get('k') == 'bind']
+                if len(binds) == 4:
+                    names = binds
+        if not names:
+            ctx.violation(R, 'no-begin-pattern', 'unrecognised idiom: %s does not destructure (work, original_count, recovery_count, received) from the work object' % p, fn=p, cfg=cfg)
+            continue
+        work, oc, rc, recv = names
+        ren = {oc: 'O', rc: 'R'}
+        ev = c05.Events(fn)
+        regions = {'orig': [], 'rec': []}
+        reveal = []
+        for e in ev.events:
+            if e['kind'] != 'for':
+                continue
+            rng = core.is_range_struct(e['iter'])
+            if rng is None or rng[0] is None or rng[1] is None or e['pat'].get('k') != 'bind':
+                continue
+            ivar = e['pat']['name']
+            uses_recv = core.hir_find(e['body'], lambda m: m.get('k') == 'index' and hcanon(m['base']) == ('local', recv) and hcanon(m['idx']) == ('local', ivar))
+            if not uses_recv:
+                continue
+            st = rn(local_to_sym(hcanon(rng[0], e['env'])), ren)
+            en = rn(local_to_sym(hcanon(rng[1], e['env'])), ren)
+            length = c05.lin(('bin', 'Sub', en, st))
+            kind = 'orig' if length == c05.lin(('sym', 'O')) else ('rec' if length == c05.lin(('sym', 'R')) else None)
+            if kind is None:
+                ctx.violation(R, 'odd-region:%s' % core.short(adt), '%s loops over received[%s..%s], which is neither original_count nor recovery_count positions long'
+                              % (p, hshow(st), hshow(en)), site=e['node'].get('line'), fn=p, cfg=cfg)
+                continue
+            regions[kind].append((st, e['node'].get('line')))
+        for kind, base in (('orig', bases[0]), ('rec', bases[1])):
+            if not regions[kind]:
+                ctx.violation(R, 'no-%s-region:%s' % (kind, core.short(adt)), '%s has no loop over the %s positions of the bitmap' % (p, kind), fn=p, cfg=cfg)
+                continue
+            for st, line in regions[kind]:
+                n += 1
+                if c05.lin(st) == c05.lin(sym(base)):
+                    ctx.ok(R, '%s:%s@%s:%s' % (core.short(adt), kind, cfg, line.split(':')[-1]), {'region_starts_at': hshow(st), 'configured_base': core.show(base)})
+                else:
+                    ctx.violation(R, 'misplaced-%s:%s' % (kind, core.short(adt)),
+                                  '%s treats positions from %s on as %s shards, but reset configured their base position as %s (where add_* stores them and the accessor reads them)'
+                                  % (p, hshow(st), 'original' if kind == 'orig' else 'recovery', core.show(base)), site=line, fn=p, cfg=cfg)
+    ctx.floor(R, 10, n, 'bitmap-indexed regions in the decoders', cfg=cfg)
+
+
+def rn(c, ren):
+    if not isinstance(c, tuple):
+        return c
+    if c and c[0] in ('param', 'local', 'var') and len(c) >= 2 and c[1] in ren:
+        return ('sym', ren[c[1]])
+    return tuple(rn(x, ren) for x in c)
+
+
+def sym(c):
+    return c
+
+
+def local_to_sym(c):
+    return c
